@@ -375,12 +375,40 @@ func (c *TermCtx) Eq(a, b *Term) *Term {
 			return c.Not(a)
 		}
 	}
+	// const == ite(c, k1, k2) with constant leaves: push the comparison into the ite (keeps BV
+	// encodings of small enumerations such as Sign() or orientation codes out of arithmetic queries)
+	if a.IsConst() && b.Op == OpIte && a.Sort.K == KBV && iteConstLeaves(b, 0) {
+		return c.eqConstIte(a, b)
+	}
+	if b.IsConst() && a.Op == OpIte && b.Sort.K == KBV && iteConstLeaves(a, 0) {
+		return c.eqConstIte(b, a)
+	}
 	// byte-wise decomposition helps fold encode/decode round trips:
 	// concat(x..) == concat(y..) is left to the solver.
 	if a.id > b.id {
 		a, b = b, a
 	}
 	return c.mk(&Term{Op: OpEq, Sort: SBool, Args: []*Term{a, b}})
+}
+
+func iteConstLeaves(t *Term, depth int) bool {
+	if depth > 8 {
+		return false
+	}
+	if t.IsConst() {
+		return true
+	}
+	if t.Op != OpIte {
+		return false
+	}
+	return iteConstLeaves(t.Args[1], depth+1) && iteConstLeaves(t.Args[2], depth+1)
+}
+
+func (c *TermCtx) eqConstIte(k, t *Term) *Term {
+	if t.IsConst() {
+		return c.Bool(k.U == t.U)
+	}
+	return c.Ite(t.Args[0], c.eqConstIte(k, t.Args[1]), c.eqConstIte(k, t.Args[2]))
 }
 
 // ---------- bit-vectors ----------
